@@ -30,8 +30,8 @@ def sat(name, family, quick, thorough, tags, shard=400):
 
 PROPS = {
     "C01": dict(theorems=["C01_success_means_valid", "C01_engine_computes_semantics"], cone=ENGINE_CONE + ["Proofs/Indep.v", "Proofs/SatP.v"], rule=ENGINE_RULE,
-                families=[eng("engine", "C01", 1200, 20000, ["sat", "panic"]),
-                          eng("accepted", "C01d", 700, 12000, ["sat", "panic"]),   # schemas and inputs re-drawn until the implementation reports no issues; values the schema places itself (Default, Catch)
+                families=[eng("engine", "C01", 1200, 20000, ["sat", "nil", "panic"]),
+                          eng("accepted", "C01d", 700, 12000, ["sat", "nil", "panic"]),   # schemas and inputs re-drawn until the implementation reports no issues; values the schema places itself (Default, Catch)
                           sat("helpers", "helpers", 600, 8000, ["tests"], shard=300)]),   # a struct test lost by a derived schema is a skipped constraint
     "C02": dict(theorems=["C02_engine_computes_semantics", "C02_node_refines", "C02_all_failing_tests_reported", "C02_test_issues_at_own_path", "C02_missing_required_is_one_issue", "C02_coerce_failure_is_one_issue", "C02_struct_not_a_record", "C02_nil_iff_no_violation"], cone=ENGINE_CONE + ["Proofs/ExactP.v", "Proofs/AbsentP.v"], rule=ENGINE_RULE,
                 families=[eng("engine", "C02", 1200, 20000, ["nil", "issues", "panic"])]),
@@ -63,9 +63,11 @@ PROPS = {
                 families=[dict(name="race", family="race", quick=0, thorough=0, tags=["data_race", "concurrent_result"]),
                           dict(name="history", family="history", profile="C07", quick=400, thorough=5000, tags=["isolation", "isolation_dirty", "issue_aliased", "panic", "nil", "issues", "msg", "dest"])]),
     "C09": dict(theorems=["C09_struct_order_independent_partial", "C09_fields_order_independent_partial", "C09_deep_order_independent_partial", "C09_deep_premise_is_satisfiable", "C09_input_key_order_irrelevant", "C09_error_state_irrelevant_without_transforms", "C09_engine_computes_semantics"], cone=ENGINE_CONE + ["Proofs/Indep.v", "Proofs/DeepOrder.v"], rule=ENGINE_RULE,
-                families=[eng("engine", "C09", 1000, 16000, ["repeat", "repeat_ptgate", "panic"])]),
+                families=[eng("engine", "C09", 1000, 16000, ["repeat", "repeat_ptgate", "panic", "nil", "issues", "dest"])   # + the tie itself: an outcome no visit order of the (order-independent) model explains]),
     "C10": dict(theorems=["C10_map_wf", "C10_paths", "C10_sanitize", "C10_field_key", "C10_nested_source_tag_refuted", "C10_engine_computes_semantics"], cone=ENGINE_CONE + ["Proofs/ErrsP.v", "Proofs/FrontEndsP.v"], rule=ENGINE_RULE,
                 families=[eng("engine", "C10", 1200, 20000, ["issues", "first", "panic", "sanitize"]),
+                          # the map of a call after arbitrary earlier calls (Collect helpers, undecodable bodies): still keyed by its own issues' paths
+                          dict(name="history", family="history", profile="C07", quick=400, thorough=5000, tags=["issues", "first", "isolation", "issue_aliased", "panic"]),
                           dict(name="fe", family="fe", profile="fe", quick=700, thorough=8000, tags=["issues", "first", "panic", "nested_source_tag"])]),
     "C12": dict(theorems=["C12_engine_computes_semantics", "C12_test_receives_the_tested_value", "C12_pts_prefix_in_order", "C12_pts_skipped_when_an_issue_exists", "C12_preprocess_error_skips_schema", "C12_preprocess_type_mismatch_skips_schema", "C12_ctx_values_are_this_calls"], cone=ENGINE_CONE + ["Proofs/ExactP.v", "Model/Objects.v", "Proofs/ObjectsP.v"], rule=ENGINE_RULE,
                 families=[eng("engine", "C12", 1200, 20000, ["calls", "args", "ctx", "haserr", "panic"]),
